@@ -170,6 +170,20 @@ CLAIMED["C03"] = dict(
          "unresolved parameter type). Only instrumented access sites are observed.",
     technique="TLC-enumerated programs and deterministic near-miss mutants; trace validation of session outcomes against a TLA+ contract; strict-mode bounds hooks",
 )
+CLAIMED["C07"] = dict(
+    category="model_checking",
+    text="EditSwap.tla: the program is a list of independent stateful voices (five state shapes) bound in dsp; channel A sums the "
+         "voices no edit has touched, channel B the rest. TLC explores every history of ticks, edits (insert / delete / replace a "
+         "voice at any position, change a constant) and failing compilations within the bounds; the specification's state after "
+         "a swap is what the property promises (the cells of surviving voices move with the voice, every other cell starts at "
+         "zero, the clock keeps running, a failing compilation changes nothing), computed on Lang.tla's call-tree cells, not by "
+         "the diff. Every history is replayed through the real hot-swap paths of the VM and of the WASM runtime (CLI payload "
+         "composition) and channel A is compared sample by sample; failing compilations must be refused.",
+    design_ref="DESIGN.md §6 C07",
+    note="Voices of one program have pairwise different state shapes (the property leaves the assignment among identically "
+         "shaped siblings open). Nest-deeper edits are not generated. Two output channels throughout.",
+    technique="TLA+ model of edit histories over a definitional evaluator, checked with TLC; histories replayed on VM and WASM",
+)
 NOT_YET = {}
 
 checks = []
